@@ -35,3 +35,72 @@ theorem step_rejected (s : State) (op : Op) (e : Err) (h : op.shape = some (.rej
         opWriteResurrectionWithXattrs, opUpdateXattrDeleteBody, h, runShape])
 
 end Rosmar
+
+namespace Rosmar
+
+theorem wwxShape_family {Q : String → RowFn → Prop} (hQ : Family Q) (c k : String) (val : ValArg) (edits : List XEdit)
+    (ifCas exp : Option Nat) (o : XOpts) (m : Macros) (c' k' : String) (f : RowFn)
+    (h : wwxShape c k val edits ifCas exp o m = .row c' k' f) : c' = c ∧ Q k' f := by
+  unfold wwxShape at h
+  split at h
+  · cases h
+  · cases h; exact ⟨rfl, hQ.wwx ..⟩
+
+/-- Whatever single-row entry point is called, the row function it runs belongs to the family, on the addressed collection. -/
+theorem shape_family {Q : String → RowFn → Prop} (hQ : Family Q) (op : Op) (c k : String) (f : RowFn)
+    (h : op.shape = some (.row c k f)) : Q k f := by
+  cases op <;> simp only [Op.shape, Option.some.injEq, reduceCtorEq] at h
+  case add => cases h; exact hQ.add ..
+  case set => cases h; exact hQ.set ..
+  case wcas => cases h; exact hQ.wcas ..
+  case remove => cases h; exact hQ.remove ..
+  case delete => cases h; exact hQ.remove ..
+  case touch => cases h; exact hQ.touch ..
+  case incr => cases h; exact hQ.incr ..
+  case delx => cases h; exact hQ.delx ..
+  case dsp => cases h; exact hQ.dsp ..
+  case setx => exact (wwxShape_family hQ _ _ _ _ _ _ _ _ _ _ _ h).2
+  case rmx => exact (wwxShape_family hQ _ _ _ _ _ _ _ _ _ _ _ h).2
+  case uxdb => exact (wwxShape_family hQ _ _ _ _ _ _ _ _ _ _ _ h).2
+  case updx =>
+    unfold shapeUpdateXattrs at h
+    split at h
+    · cases h
+    · exact (wwxShape_family hQ _ _ _ _ _ _ _ _ _ _ _ h).2
+  case wwx =>
+    unfold shapeWriteWithXattrs at h
+    split at h; · cases h
+    split at h; · cases h
+    split at h; · cases h
+    split at h
+    · cases h
+    · exact (wwxShape_family hQ _ _ _ _ _ _ _ _ _ _ _ h).2
+  case wtx =>
+    unfold shapeWriteTombstoneWithXattrs at h
+    split at h; · cases h
+    split at h; · cases h
+    split at h; · cases h
+    split at h
+    · cases h
+    · exact (wwxShape_family hQ _ _ _ _ _ _ _ _ _ _ _ h).2
+  case wrx =>
+    unfold shapeWriteResurrectionWithXattrs at h
+    split at h
+    · cases h
+    · split at h
+      · cases h
+      · exact (wwxShape_family hQ _ _ _ _ _ _ _ _ _ _ _ h).2
+
+/-- The outcome of any single-row entry point, in terms of its row function. -/
+theorem step_outcome (s : State) (op : Op) (c k : String) (f : RowFn) (h : op.shape = some (.row c k f)) :
+    ∃ out, (step s op).2 = .out out ∧ RowOutcome f s c k (step s op).1 out := by
+  obtain ⟨hrows, hout, _⟩ := step_shape s op _ h
+  refine ⟨_, hout, ?_⟩
+  simp only [runShape] at hrows ⊢
+  cases withNewCas_liftRow_outcome s c k f with
+  | noColl hc hr herr => exact .noColl hc (fun c' k' => by rw [hrows, hr]) herr
+  | failed hf hr => exact .failed hf (fun c' k' => by rw [hrows, hr])
+  | unchanged ev hf hr => exact .unchanged ev hf (fun c' k' => by rw [hrows, hr])
+  | wrote r' ev hf hr ho => exact .wrote r' ev hf (by rw [hrows, hr]) (fun c' k' hne => by rw [hrows, ho c' k' hne])
+
+end Rosmar
